@@ -59,11 +59,11 @@ class ExprMixin(ExecBase):
             self.spec_old = saved_old
             if outer:
                 sink, self._ax_sink = self._ax_sink, None
-                seen = set(id(p) for p in st.pc)
+                tgt = self.fact_target if self.fact_target is not None else st
                 for a in sink:
                     # instances of spec-function definitions are valid facts: adding them to the path is sound
-                    if not any(a.eq(p) for p in st.pc[-40:]):
-                        st.pc.append(a)
+                    if not any(a.eq(p) for p in tgt.pc[-40:]):
+                        tgt.pc.append(a)
         if len(outs) != 1:
             raise Unsupported("spec expression forks: %s" % expr)
         return outs[0][1]
@@ -563,11 +563,15 @@ class ExprMixin(ExecBase):
                     probe.assume(acc if is_and else z3.Not(acc))
                 nraise = len(self.raises_stack[-1]) if self.raises_stack else 0
                 nobl = len(self.obls)
+                npc = len(probe.pc)
                 outs = self.ev_truth(sub, probe)
                 pure = (len(outs) == 1 and (not self.raises_stack or len(self.raises_stack[-1]) == nraise)
-                        and len(self.obls) == nobl and outs[0][0].heap == s.heap and outs[0][0].env == s.env
-                        and len(outs[0][0].pc) == len(probe.pc))
+                        and len(self.obls) == nobl and outs[0][0].heap == s.heap and outs[0][0].env == s.env)
                 if pure:
+                    # facts learned while evaluating `sub` (validity of heap reads, cardinality
+                    # axioms) hold under the guard that evaluation got this far
+                    for f in outs[0][0].pc[npc:]:
+                        s.assume(f if acc is None else z3.Implies(acc if is_and else z3.Not(acc), f))
                     t = outs[0][1]
                     comb = t if acc is None else (z3.And(acc, t) if is_and else z3.Or(acc, t))
                     nxt.append((s, comb))
@@ -675,12 +679,17 @@ class ExprMixin(ExecBase):
             sb = s.copy().assume(z3.Not(t))
             nra = len(self.raises_stack[-1]) if self.raises_stack else 0
             no = len(self.obls)
+            npa, npb = len(sa.pc), len(sb.pc)
             oa = self.ev(e.body, sa)
             ob = self.ev(e.orelse, sb)
             pure = (len(oa) == 1 and len(ob) == 1 and len(self.obls) == no
                     and (not self.raises_stack or len(self.raises_stack[-1]) == nra)
                     and oa[0][0].heap == s.heap and ob[0][0].heap == s.heap)
             if pure:
+                for f in oa[0][0].pc[npa:]:
+                    s.assume(z3.Implies(t, f))
+                for f in ob[0][0].pc[npb:]:
+                    s.assume(z3.Implies(z3.Not(t), f))
                 a, b = oa[0][1], ob[0][1]
                 if a.ty != b.ty:
                     if a.ty == NONE and b.ty != NONE and b.ty != PYOBJ:
